@@ -56,9 +56,10 @@ for k, v in pass1.items():
     if v[0] == "CAUGHT":
         c[0] += 1
 p1txt = "; ".join(f"round {r}: {c[0]} of {c[1]}" for r, c in sorted(per.items()))
-out += [f"First pass (any of the 20 checks, as they were when that round's agents started): {p1txt}. Now: {n_now} of {len(rows)} caught, {n_own} of them by the check of the property the agent was given.",
+out += [f"First pass (any of the 20 checks, as they were when that round's agents started; in round 6 only the check of the agent's property was run): {p1txt}. Now: {n_now} of {len(rows)} caught, {n_own} of them by the check of the property the agent was given.",
 "The one change still missed, C05-r2m1, alters how NaN compares (NaN from `inf - inf`, or the string 'NaN'): non-finite values are [P] throughout (section 3.1) because no property statement fixes them, so no check claims it.",
-"One further change of round 3 (C04-r3m1) is kept under `seeded/obsolete/`: it manifested only through the array-length defect K-ALIAS and is harmless since that was repaired.",
+"Four further changes are kept under `seeded/obsolete/` with a note each: C04-r3m1 manifested only through the array-length defect K-ALIAS and is harmless since that was repaired; C01-m2 (a Go panic of integer `%`) and C14-r2m2 (a per-value slice of roots that was never reset) perverted code that the sixth round's repairs replaced (626a211, 3a6b155); C07-r6m2 changes what `next` does in BEGIN / END / BEGINFILE / ENDFILE rules, which no statement fixes (pinned, reported as a NOTE).",
+"The sixth round's repairs of /repo touched lines under 39 stored changes; 3 re-applied by three-way merge, 36 were re-written for the new tree by six sub-agents (given the old patch, its note and demonstration and a scratch clone; `patch.before-c9e43cc.diff` keeps the original) and re-confirmed by `tools/ingest_ported.sh`; one demonstration (C10-m2) used `false++`, which is a syntax error since 12c2390, and now stores through a match binding instead.",
 "For round 2 the first pass was run afterwards against the commit that preceded the round (a3da53e), because I had started strengthening from the agents' reports before running anything; for rounds 1 and 3 it was run before any change.", ""]
 out += ["What the misses of the first round had in common, and what was added (section 4 describes the workloads as they are now):", "",
 "* **state that survives between evaluations of one expression site** (regex compiled once per site; method cell cached on the AST node; shared true/false/null cells; shared key buffer): workloads evaluated every site once. Added: operator functions `opf<i>(l, r)` so that one site sees a whole batch of operand pairs, and a batch whose members agree alone but not in sequence is itself a violation (C05); recursion re-entering a method call site (C15); nested for-in over two multi-key objects, directly and through a function (C07); disturber programs that store into cells obtained from literals, and numeric-looking object keys whose numeric and string orders disagree (C10).",
@@ -74,6 +75,8 @@ out += ["What the misses of the first round had in common, and what was added (s
 "Fourth round (22 missed at first; the agents were told to prefer triggers that a generator of typical programs rarely produces): *sizes and counts just past a threshold* - 13 rules, 32-element arrays, pad counts that are multiples of 64, 65 536 frames, a value at byte offset 512 of the input, 19-digit widths (C02, C15, C18, C08, C04, C20); *values that are null by absence or look like something else* - a missing member compared with 0, a pushed `b[9]`, a string that spells a number given to %f, dotted pluck keys, a regex held in a variable (C02, C15, C18, C16, C12); *receivers and operands that were never stored* - `s[0].upper()`, a number literal with a method suffix after `*`, `!x is T` (C16, C06); *program shapes* - BEGIN-only programs on damaged input, comma-less object literals, body-less rules around method-only changes, prints whose arguments print (C03, C13, C17); *short reads* - the same bytes in reads of one byte (C10). One agent reported, while probing, a crash that was already in the tree (F25, section 5): none of my checks had a call whose argument assigns to its own receiver.",
 "",
 "Fifth round: again triggers chosen to be rare - a condition re-evaluated only when its operands are of different kinds, a literal of 8+ items, a subscript of 14+ tokens, 18 distinct regex texts, documents nested deeper than 4096, digit strings of 17+ digits, doubles 4 ulp apart, a byte at offset 0, the binary's own stack ceiling, file operands naming one file twice, `-o` onto the input file. Writing a hand-computed program for one of them (own keys named like methods) exposed defect F26 (section 5) on the unchanged tree.",
+"",
+"Sixth round (written against the repaired tree c9e43cc, with the hint that partly undoing or mis-generalising one of the recent repairs is welcome; 14 of 40 missed at first): *resources of the process rather than of the language* - more file operands than descriptors once files are closed only at exit (C02, C14), standard output that is a regular file and therefore \"safe\" to buffer (C03); *the one double that is not an int64* - 2^63 passes a `<= MaxInt64` guard written in floating point (C04; C05 caught the same slip in `%`); *formats that end inside a directive* after a flag (C01); *stores where a method name is not a member* on arrays, strings and numbers (C11); *results that alias what they were made from* - `sort()` sharing cells with its receiver, `split()` handing out its previous result, one cell per byte for string indexing shared by all runs of the process (C09, C16, C10); *a genuine U+FFFD* among bytes that are no UTF-8 (C16); *long case lists* (a dispatch table keyed by the literal's text defeats equality by coercion) and *names bound by an alternative that then fails* (C19); *the receiver's location stored into by an argument of the same call* (C15). One change (C07-r6m2) turned out to be about behaviour no statement fixes, see above.",
 "",
 "### 8.2 The reverse of every repair",
 "",
